@@ -122,6 +122,33 @@ def is_shadow(fn, pid):
     return ins is not None and ins[3].startswith("shadow:")
 
 
+def call_aux(ins):
+    """fields of a call's aux: class (builtin:<n> / ubuiltin:<n> / errinvoke / shadow:<n> / plain) and the numeric fields"""
+    parts = ins[3].split(",")
+    d = {}
+    for kv in parts[1:]:
+        k, _, v = kv.partition("=")
+        try:
+            d[k] = int(v)
+        except ValueError:
+            pass
+    return parts[0], d
+
+
+def must_have_node(fn, pid):
+    """A call (Call / Go / Defer) may lack a call node in the summary only for a reason decidable from the SSA:
+    its callee is a genuine *ssa.Builtin handled by the analysis (builtin:<name>), it is the zero-argument invoke x.Error()
+    (errinvoke), or no callee is resolved for it (callees=0 from AnalyzerState.ResolveCallee, asked independently of the
+    summary's node creation).  Every other call must have a node: its arguments are uses, its results origins."""
+    ins = fn.instrs.get(pid)
+    if ins is None or not ins[2] or ins[0] not in ("Call", "Go", "Defer"):
+        return False
+    cls, d = call_aux(ins)
+    if cls.startswith("builtin:") or cls == "errinvoke":
+        return False
+    return d.get("callees", 0) > 0
+
+
 def spec(fn):
     """-> (required, info): required = {(mid, uid): (origin, use, path)} for every def-use chain origin -> use;
     info = counters.  Pure graph reachability over SSA operands; no program points, no analysis state."""
@@ -140,7 +167,7 @@ def spec(fn):
         ins = fn.instrs.get(pid)
         if ins is None or not ins[2]:
             continue
-        if nn == 0 and not is_shadow(fn, pid):
+        if nn == 0 and not (is_shadow(fn, pid) or (kind == "A" and must_have_node(fn, pid))):
             info["no_node"] += 1
             continue
         uses_by_val[vid].append(u)
@@ -150,7 +177,7 @@ def spec(fn):
         if pid == 0 or vid == 0 or ins is None or not ins[2]:
             info["unreachable_origin"] += 1
             continue
-        if nn == 0 and not (okind == "C" and is_shadow(fn, pid)):
+        if nn == 0 and not (okind == "C" and (is_shadow(fn, pid) or must_have_node(fn, pid))):
             info["no_node"] += 1
             continue
         # BFS over values
@@ -424,7 +451,8 @@ def run(chk):
                 stats["missing_edges"] += 1
                 key = None
                 if (o[1] == "C" and o[5] == 0) or u[5] == 0:
-                    key = "builtin-name-shadow"
+                    cp = o[2] if (o[1] == "C" and o[5] == 0) else u[2]
+                    key = "builtin-name-shadow" if is_shadow(fn, cp) else "missing-call-node:" + fn.name
                 else:
                     for (k, rule, a) in vkeys:
                         mk = {"edge": 2, "transfer": 3, "forward": 3, "origin": 0}[rule]
@@ -436,6 +464,24 @@ def run(chk):
                 txt = ("%s: the def-use chain from %s through [%s] to %s has no summary edge"
                        % (fn.name, describe_origin(o), ", ".join("%s@%d" % (k, p) for p, k in path), describe_use(u)))
                 by_key[key].append((fn, txt, (o, u, path)))
+            # (a') every call that must have a call node has one, whether or not a chain reaches it
+            for pid, ins in fn.instrs.items():
+                if must_have_node(fn, pid) and call_aux(ins)[1].get("nodes", 0) == 0 and not is_shadow(fn, pid):
+                    found_concrete = True
+                    stats["calls_without_node"] += 1
+                    cls, d = call_aux(ins)
+                    k = "missing-call-node:" + fn.name
+                    if not any(x[0] is fn for x in by_key.get(k, ())):
+                        by_key[k].append((fn, "%s: the %s at point %d (%s, %d argument(s), %d resolved callee(s)) has no call node in the "
+                                              "summary: its arguments and results are connected to nothing"
+                                          % (fn.name, ins[0], pid, cls, d.get("nargs", 0), d.get("callees", 0)), None))
+                elif ins[0] in ("Call", "Go", "Defer") and ins[2]:
+                    cls, d = call_aux(ins)
+                    if d.get("nodes", 0) == 0:
+                        stats["calls_without_node_justified:" + ("builtin" if cls.startswith("builtin:") else
+                                                                 cls if cls == "errinvoke" else "no-resolved-callee")] += 1
+                    else:
+                        stats["calls_with_node"] += 1
             # (b) T-cert: the implementation's state must be closed under R / forward-closed
             if not r["closed"]:
                 stats["not_closed"] += 1
@@ -524,8 +570,9 @@ def run(chk):
         "SSA as built by x/tools/go/ssa; wf_ssa (unique definitions, definitions reach uses along the CFG) is CHECKED by the verified "
         "check_wf_ssa on every function: %d of %d not wf" % (stats["not_wf_ssa"], stats["functions"]),
         "points unreachable from the entry block (recover blocks) are outside the model: the implementation's worklist never visits them",
-        "origins/uses whose summary node does not exist (call with no resolved callee) are excluded (%d); calls to NON-builtin functions "
-        "that the analysis treats as builtins by name are NOT excluded (finding builtin-name-shadow)" % stats["no_node_excluded"],
+        "a call may lack a call node only if its callee is a genuine handled *ssa.Builtin, it is the zero-argument invoke x.Error(), or "
+        "AnalyzerState.ResolveCallee (asked by the dumper, independently of node creation) resolves no callee; every other call without "
+        "a node is the violation missing-call-node:<fn>; origins/uses excluded for one of the justified reasons: %d" % stats["no_node_excluded"],
         "path-insensitive configuration (config.NewDefault); functions above the size caps are skipped: %d too large, %d too many facts"
         % (stats["skipped_too_large"], stats["skipped_too_many_facts"]),
         "L2 (Lang/RegSem.hfunc = func + store/load/alloc tables from the LS/LL/LA lines): check_addr_alloc delimits the fragment of "
